@@ -212,6 +212,9 @@ class Probe(Provider):
     def get_request_handlers(self):
         def handler(mediator, request):
             self.log.append((self.tag, _loc_name(request)))
+            if len(self.log) > 500:
+                # a routing loop (the same provider selected again and again) would never return: make it visible
+                raise RuntimeError(f"provider {self.tag} consulted more than 500 times for one request")
             if self.kind == "decline":
                 raise CannotProvide("declined by probe")
             if self.kind == "delegate":
